@@ -10,7 +10,9 @@ sequence pattern/wildcard, literal/class pattern).  The body of every try statem
 interleaved with a conditional raise at EVERY position, so every exception edge out of a try body is taken.
 Bound: <= 3 nodes (atoms + compounds), nesting <= 2, sequence length <= 3 (<= 2 inside compounds), plus all 4-node
 single-statement programs loop(try(..)) that contain a break/continue (leaving a try inside a loop) and the 5-node shapes
-loop[try[s; break|continue] except/finally: pass; s']; thorough adds
+loop[try[s; break|continue] except/finally: pass; s'] and the complete family of a break/continue inside TWO nested
+try/finally blocks in a loop (while: try: [try: a; break|continue finally: b]; c finally: d, with a, b, c, d over
+{x = 1, del x, read x, pass}); thorough adds
 all 4-node programs over {assign, del, read} x {while, for, try-except, try-finally, try-except-as-x, match}.  Every
 program is generated with and without an `x = 1` prologue and ends with an epilogue that probes the final binding
 state of x (bare `x` statement and a call argument) and of y under try/except.  Every branch, loop count (0/1/2) and conditional raise reads its own digit of
@@ -77,6 +79,21 @@ def _family(tier):
                             if gen.admissible(prog, init, 6) and (init, prog) not in seen:
                                 seen.add((init, prog))
                                 progs.append((init, prog))
+    # break / continue through TWO nested try/finally blocks inside one loop (the break must run the inner finally, then
+    # the outer one):  while ..: try: [try: a; break|continue  finally: b]; c  finally: d   with a, b, c, d over
+    # {x = 1, del x, read x, pass}, complete (256 x 2 x prologue); plain try bodies, the epilogue is the read after the loop
+    opts = ((), (('A',),), (('D',),), (('R',),))
+    for a in opts:
+        for bk in 'BK':
+            for b in opts:
+                for c in opts:
+                    for d in opts:
+                        inner = ('tfp', a + ((bk,),), b)
+                        prog = (('wh', (('tfp', (inner,) + c, d),)),)
+                        for init in (False, True):
+                            if gen.admissible(prog, init, 6) and (init, prog) not in seen:
+                                seen.add((init, prog))
+                                progs.append((init, prog))
     if tier != 'quick':
         for p in gen.programs(4, top_len=2, inner_len=2, atoms=('A', 'D', 'R'), forms=('wh', 'forx', 'te', 'tf', 'tex', 'ms')):
             if p not in seen:
@@ -126,7 +143,7 @@ def _mods(fns, cfg, module_options, input_sets):
     return mods
 
 
-_CAT = {'te': 'try', 'tex': 'try', 'tf': 'try', 'teef': 'try', 'wn': 'with', 'ws': 'with', 'wx': 'with',
+_CAT = {'te': 'try', 'tex': 'try', 'tf': 'try', 'tfp': 'try', 'teef': 'try', 'wn': 'with', 'ws': 'with', 'wx': 'with',
         'wh': 'loop', 'whe': 'loop', 'forx': 'loop', 'forxe': 'loop', 'forl': 'loop', 'mt': 'match', 'mtx': 'match', 'ms': 'match', 'mc': 'match'}
 
 
@@ -196,7 +213,7 @@ def _keyfn0(tag, inp, exp, got):
     return 'C21|%s|compiled-stops-before@%s' % (cfg, kind(le[n]))
 
 
-_SLOT = {'tf.1': 'finally-body', 'teef.3': 'finally-body', 'te.1': 'handler', 'tex.1': 'handler', 'teef.1': 'handler',
+_SLOT = {'tf.1': 'finally-body', 'tfp.1': 'finally-body', 'tfp.0': 'try-body', 'teef.3': 'finally-body', 'te.1': 'handler', 'tex.1': 'handler', 'teef.1': 'handler',
          'teef.2': 'try-else', 'te.0': 'try-body', 'tex.0': 'try-body', 'tf.0': 'try-body', 'teef.0': 'try-body',
          'whe.1': 'loop-else', 'forxe.1': 'loop-else'}
 
